@@ -43,6 +43,10 @@ class SMetricGrid:
             return SNative(dist, "grid.distance")
         if attr == "dim":
             return self.dim
+        if attr == "periodic":
+            # an arbitrary periodicity mask: whether an axis is periodic must not change WHICH metric is used (the grid's own metric
+            # already is Euclidean along non-periodic axes)
+            return [z3.Bool(f"grid_periodic_{a}") for a in range(self.dim)]
         return _MISSING
 
 
